@@ -212,6 +212,7 @@ type fnCtx struct {
 	d      *Deriv // cell resolution only
 	stores map[ssa.Value][]ssa.Value
 	fstore map[ssa.Value]map[int][]ssa.Value // struct allocs: per-field stores
+	copies map[ssa.Value][]ssa.Value         // creation site -> slices whose elements copy() put there
 	memoP  map[ssa.Value]oset
 	memoD  map[ssa.Value]oset
 	actP   map[ssa.Value]bool
@@ -219,16 +220,22 @@ type fnCtx struct {
 }
 
 func (p *Purity) newCtx(fn *ssa.Function) *fnCtx {
-	c := &fnCtx{p: p, fn: fn, d: NewDeriv(p.w, fn), stores: map[ssa.Value][]ssa.Value{}, fstore: map[ssa.Value]map[int][]ssa.Value{},
+	c := &fnCtx{p: p, fn: fn, d: NewDeriv(p.w, fn), stores: map[ssa.Value][]ssa.Value{}, fstore: map[ssa.Value]map[int][]ssa.Value{}, copies: map[ssa.Value][]ssa.Value{},
 		memoP: map[ssa.Value]oset{}, memoD: map[ssa.Value]oset{}, actP: map[ssa.Value]bool{}, actD: map[ssa.Value]bool{}}
 	type through struct {
 		base ssa.Value
 		val  []ssa.Value
 	}
 	var pending []through
+	var copied []through
 	withClosures(fn, func(f *ssa.Function) {
 		allInstrs(f, func(in ssa.Instruction) {
 			switch s := in.(type) {
+			case ssa.CallInstruction:
+				// copy(dst, src): dst's storage now holds src's elements (shallow: what they refer to is shared)
+				if b, ok := s.Common().Value.(*ssa.Builtin); ok && b.Name() == "copy" && len(s.Common().Args) == 2 {
+					copied = append(copied, through{c.d.cell(s.Common().Args[0]), []ssa.Value{s.Common().Args[1]}})
+				}
 			case *ssa.Store:
 				c.recordStore(c.d.cell(s.Addr), s.Val, func(base ssa.Value) {
 					pending = append(pending, through{base, []ssa.Value{s.Val}})
@@ -243,6 +250,11 @@ func (p *Purity) newCtx(fn *ssa.Function) *fnCtx {
 	for _, t := range pending {
 		for site := range c.sites(t.base, map[ssa.Value]bool{}) {
 			c.stores[site] = append(c.stores[site], t.val...)
+		}
+	}
+	for _, t := range copied {
+		for site := range c.sites(t.base, map[ssa.Value]bool{}) {
+			c.copies[site] = append(c.copies[site], t.val...)
 		}
 	}
 	return c
@@ -615,6 +627,9 @@ func (c *fnCtx) storedTokens(root ssa.Value, out oset) {
 		for _, sv := range svs {
 			add(sv)
 		}
+	}
+	for _, src := range c.copies[root] {
+		out.addAll(c.deep(src))
 	}
 }
 
